@@ -95,7 +95,7 @@ def euler_vars(ctx, rng, idx):
         nx, ny = int(rng.integers(1, 7)), int(rng.integers(1, 7))
         mesh = fmesh2d.mesh2d(nx, ny, 1.0, 2.0); model = euler.euler2d(gamma=gam)
     else:
-        mesh, _ = gen.mesh1d(rng, nmin=1, nmax=40)
+        mesh, _ = gen.mesh1d(rng, nmin=1, nmax=40, big=0.05)
         if kind == "nozzle":
             a, b = float(rng.uniform(0.5, 2)), float(rng.uniform(0.1, 0.8))
             sec = lambda x: a * (1 + b * np.sin(1.3 * x) ** 2)
